@@ -114,7 +114,7 @@ def tla_value_to_py(s: str):
                 key = m.group(0)
                 pos += len(key)
                 ws()
-                assert s[pos:pos + 2] == "|->", s[pos:pos + 20]
+                assert s[pos:pos + 3] == "|->", s[pos:pos + 20]
                 pos += 3
                 d[key] = parse()
                 ws()
